@@ -90,22 +90,24 @@ def prop(pid, rules, explanation, decides, does_not_decide, **kw):
 
 RUNTIME = "run-time equalities over all inputs (round trips, byte equality with independent codecs) — quantify over values; only the named structural necessary conditions are decided"
 
-prop("C01", [rw.r_layout_w, rw.r_fieldmap_w, rr.r_fieldmap_r, rr.r_addr_open, rr.r_exact_tile, rh.r_round, st.r_hashid, st.r_finish_pair],
+prop("C01", [rw.r_layout_w, rw.r_fieldmap_w, rr.r_fieldmap_r, rr.r_addr_open, rr.r_exact_tile, rh.r_round, st.r_hashid, st.r_finish_pair, st.r_rle_dep, st.r_order,
+              rs.r_budget, rs.r_leafptr, rs.r_reseek, rd.r_cols_reader, rd.r_cols_writer, rr.r_walk, rr.r_meta0, rh.r_hdr_io],
      "Necessary conditions of the write→read round trip, decided on both twins: header settings are paired field by field in writer and opener (R-FIELDMAP), section "
      "offsets/lengths equal the measured writes (R-LAYOUT-W, affine stream model), the opener rebases entry offsets by tile_data_offset and the lookup reads exactly "
      "(offset,length) (R-ADDR/R-EXACT-TILE), coordinates are rounded to nearest (R-ROUND), contents are laid out once with offsets read before the append "
-     "(R-FINISH-PAIR), and content identity is not decided by the hash alone (R-HASHID: known finding).",
-     ["R-FIELDMAP", "R-LAYOUT-W", "R-REL", "R-ADDR", "R-EXACT-TILE", "R-ROUND", "R-FINISH-PAIR", "R-COUNTERS", "R-HASHID"],
+     "(R-FINISH-PAIR), and content identity is not decided by the hash alone (R-HASHID: known finding).  Because a round trip goes through the directory codec, "
+     "the leaf spill and the directory walk, their rules (R-COLS/R-DELTA/R-OFFRULE, R-LEAFPTR/R-BUDGET/R-RESEEK, R-WALK, R-META0, R-RLE-DEP, R-ORDER) are necessary conditions too and are evaluated here as well.",
+     ["R-FIELDMAP", "R-LAYOUT-W", "R-REL", "R-ADDR", "R-EXACT-TILE", "R-ROUND", "R-FINISH-PAIR", "R-COUNTERS", "R-HASHID", "R-COLS", "R-DELTA", "R-OFFRULE", "R-LEAFPTR", "R-BUDGET", "R-RESEEK", "R-WALK", "R-META0", "R-RLE-DEP", "R-ORDER", "R-HDR-IO"],
      [RUNTIME, "metadata equality through serde_json", "contents larger than 4 GiB"])
 
-prop("C02", [rh.r_hdr_layout, rw.r_hdr_const, rw.r_layout_w, rs.r_budget, st.r_finish_pair, rw.r_fieldmap_w, st.r_order, st.r_clustered, rd.r_cols_writer, rc.r_cfg_jsonorder],
+prop("C02", [rh.r_hdr_layout, rw.r_hdr_const, rw.r_layout_w, rs.r_budget, rs.r_leafptr, rs.r_reseek, st.r_finish_pair, st.r_rle_dep, rw.r_fieldmap_w, st.r_order, st.r_clustered, rd.r_cols_writer, rc.r_cfg_jsonorder, rh.r_hdr_io],
      "Static agreement of the writer with the v3 specification table (/verif/spec/v3.json, transcribed from the spec): derived header byte layout and enum codes "
      "(R-HDR-LAYOUT), spec_version 3, sections laid out back to back after the header with offsets equal to the measured positions, root directory ≤ 16 257 bytes, "
      "counters computed once per entry/content and passed name for name, clustered=true backed by an ascending sort before layout, directory columns in spec order.",
      ["R-HDR-LAYOUT", "R-HDR-CONST", "R-LAYOUT-W", "R-BUDGET", "R-COUNTERS", "R-FINISH-PAIR", "R-ORDER", "R-CLUSTERED", "R-COLS (encoder)", "metadata field is a JSON object map (type fact)"],
      [RUNTIME, "that directories decode with an independent reader", "the spec's lookup procedure on produced files"])
 
-prop("C03", [rr.r_walk, rr.r_addr_open, rr.r_exact_tile, rr.r_meta0, rr.r_fieldmap_r, rr.r_find, rd.r_cols_reader, rr.r_rej_meta],
+prop("C03", [rr.r_walk, rr.r_addr_open, rr.r_exact_tile, rr.r_meta0, rr.r_fieldmap_r, rr.r_find, rd.r_cols_reader, rr.r_rej_meta, rr.r_bounded_read, rh.r_hdr_io, rt.r_factory],
      "The opener, directory walker, decoder and lazy fetch are checked path by path: runs are expanded for the entry whose offset/length are stored, recursion uses "
      "leaf base + entry offset and the entry's length, leaf/tile dispatch is on run_length == 0, tile addresses are rebased by tile_data_offset, metadata length 0 "
      "yields an empty object without reads, settings are reported from the header fields, single-directory lookup uses !leaf && range.contains.",
@@ -139,11 +141,11 @@ prop("C07", [tt.r_zxy_guard],
      ["R-ZXY-GUARD"],
      ["the Hilbert identities (ids equal the spec's, inverse conversion, contiguity, adjacency, child blocks): numerical facts about hilbert_2d over 6·10^18 points — no static argument in reach; explicitly declined"])
 
-prop("C08", [tt.r_taint_arith, tt.r_pow, tt.r_taint_alloc, tt.r_taint_index, tt.r_rec_bound, rt.r_no_unwrap, tt.r_range_end],
+prop("C08", [tt.r_taint_arith, tt.r_pow, tt.r_taint_alloc, tt.r_taint_index, tt.r_rec_bound, rt.r_no_unwrap, tt.r_range_end, tt.r_zxy_guard],
      "A must-be-guarded discipline over the whole crate: every integer operation, allocation size and index whose operands may derive from input bytes (dependence "
      "analysis with loop-carried sources; caller-chosen coordinates and ids included) must be checked/saturating, discharged by the width domain, guarded by a "
      "decision on every path, or listed in the reasoned allow-table; recursion must thread a constant-bounded depth; no unwrap/expect/panic exists.",
-     ["R-TAINT-ARITH", "R-TAINT-ALLOC", "R-TAINT-INDEX", "R-REC-BOUND", "R-NO-UNWRAP", "R-RANGE-END"],
+     ["R-TAINT-ARITH", "R-TAINT-ALLOC", "R-TAINT-INDEX", "R-REC-BOUND", "R-NO-UNWRAP", "R-RANGE-END", "R-ZXY-GUARD (the allow-table entries for tile_id rest on it)"],
      ["panics inside dependencies", "resource use proportional to declared run lengths (outside the claim)", "taint through closure parameters of iterator adaptors (only tile_id/zxy use them; covered by the allow-table and R-ZXY-GUARD)"])
 
 prop("C09", [rh.r_hdr_layout, rh.r_hdr_io, rh.r_hdr_reject, rh.r_round],
